@@ -151,6 +151,8 @@ MOPS = {"RLock": "MRLock", "RUnlock": "MRUnlock", "Lock": "MLock", "Unlock": "MU
 
 def term(c, r):
     if c["kind"] == "rwm":
+        if not r["completed"]:
+            return ""        # unstable timing: not compared
         return "(CRwm %d %s %s)" % (c["n"], glist(c["mops"], lambda o: "(%d, %s)" % (o["t"], MOPS[o["op"]])),
                                     glist(r["mobs"] or [], lambda o: "(%d, %s)" % (o["code"], glist(o["blocked"], gbool))))
     if c["kind"] == "depth":
@@ -250,10 +252,12 @@ def run(ctx):
         elif kind == "sched":
             sub = "sched/k%d/m%d" % (len(c["reqs"]), c["reloads"])
         elif kind == "rwm":
-            sub = "rwm/" + ("blocking" if any(any(o["blocked"]) for o in r["mobs"] or []) else "free")
+            sub = "rwm/" + ("unstable" if not r["completed"] else "blocking" if any(any(o["blocked"]) for o in r["mobs"] or []) else "free")
         ctx.count((kind, repr(c)), nontrivial=True, kind=sub)
         oracle(ctx, c, r)
         t = term(c, r)
+        if t == "":
+            continue
         if t is not None:
             terms.append(t)
             tidx.append(i)
@@ -263,6 +267,9 @@ def run(ctx):
     ctx.sample({"case": cases[1], "observed": {k: v for k, v in results[1].items() if k != "dump"}})
     ctx.sample({"case": cases[-1], "observed": {k: v for k, v in results[-1].items() if k != "dump"}})
     ctx.require_kinds(["depth/dual", "depth/single", "depth/none", "sched/k1/m1", "sched/k1/m2", "sched/k2/m1", "sched/k2/m2", "sched/k3/m2", "stress", "rwm/blocking", "rwm/free"])
+    h = ctx.cov["histogram"]
+    if h.get("rwm/unstable", 0) * 5 > h.get("rwm/unstable", 0) + h.get("rwm/blocking", 0) + h.get("rwm/free", 0):
+        ctx.broken("driver", "more than a fifth of the sync.RWMutex scripts had no two agreeing executions")
     mm = ctx.coq_mismatches("lock", HEADER, terms, "chk", shard=400, need_vo=["C13/Run.vo", "C13/Examples.vo"])
     if mm:
         ctx.cov["mismatches"] += len(mm)
